@@ -111,11 +111,6 @@ theorem sortRowN_of_id (narrow : Int → Int) (r : List (Int × V)) (h : narrow 
     | [a], _ => simp [sortRow, insertFromRight]
   · simp
 
-/-- `ptr` array of consecutive rows starting at offset `a` -/
-def ptrFrom (a : Int) : List Nat → List Int
-  | [] => [a]
-  | k :: t => a :: ptrFrom (a + k) t
-
 theorem sortSeg_mid (narrow : Int → Int) (hn : ∀ L : Int, 0 ≤ L → narrow L ≤ L)
     (pre r post : List (Int × V)) :
     sortSeg (pre ++ r ++ post) pre.length (narrow r.length) = some (pre ++ sortRowN narrow r ++ post) := by
